@@ -20,6 +20,9 @@ BREAK = [
  ('src/vm/mod.rs', '        self.maximum_iterations_per_opcode = value;\n', '        self.maximum_forks_per_fork_target = value;\n', 'iteration-limit setter writes the fork limit'),
  ('src/vm/mod.rs', '        self.gas_limit = value;\n', '        self.gas_limit = value;\n        self.value_size_limit = value;\n', 'gas-limit setter also overwrites the value size limit'),
  ('src/vm/mod.rs', '        self.single_memory_operation_size_limit = value;\n', '        self.single_memory_operation_size_limit = value.max(32);\n', 'memory limit setter clamps'),
+ ('src/vm/mod.rs', '        self.thread_queue.push_back(thread);', '        self.thread_queue.push_front(thread);', 'forked thread queued at the front'),
+ ('src/vm/mod.rs', '        self.thread_queue.push_back(thread);', '        if self.thread_queue.len() < 64 { self.thread_queue.push_back(thread); }', 'forked thread dropped when the queue is long'),
+ ('src/vm/mod.rs', '        self.remaining_thread_count() == 0', '        self.remaining_thread_count() <= 1', 'complete with one thread left'),
 ]
 KEEP = [
  ('src/vm/state/mod.rs', 'let stack = Stack::new();\n        let memory = Memory::new(config.single_memory_operation_size_limit);', 'let memory = Memory::new(config.single_memory_operation_size_limit);\n        let stack = Stack::new();', 'reordered lets'),
